@@ -558,7 +558,19 @@ func (e *Exec) BuildReplay(o *Obligation, script string) *ReplayPlan {
 		if i >= res.Len() {
 			break
 		}
-		plan.Predicted = append(plan.Predicted, c.observable(rv, res.At(i).Type()))
+		pred := c.observable(rv, res.At(i).Type())
+		// byte-slice results: the contents the counterexample predicts
+		if sq := o.ResSeqs[i]; sq != nil && strings.HasPrefix(pred, "len=") {
+			n := c.askBV(sq.Len, 0)
+			if n <= 4096 {
+				var hb strings.Builder
+				for k := uint64(0); k < n; k++ {
+					fmt.Fprintf(&hb, "%02x", c.askBV(sq.Read(c.e.C.BVC(k, 64)), 0)&0xff)
+				}
+				pred += " hex=" + hb.String()
+			}
+		}
+		plan.Predicted = append(plan.Predicted, pred)
 	}
 	plan.OK = c.fail == ""
 	if c.fail != "" {
